@@ -8,13 +8,14 @@ D=$V/.build/model/$ID
 mkdir -p "$D"
 cd "$D"
 # re-extract only when something is newer than the binary
-if [ -x modelrun ] && [ -z "$(find $V/coq/theories $V/coq/extract/$ID.v $V/model/common.ml $V/model/$ID.ml -newer modelrun 2>/dev/null | head -1)" ]; then
+if [ -x modelrun ] && [ -z "$(find $V/coq/theories $V/coq/extract/$ID.v $V/model/common.ml $V/model/prims.ml $V/model/$ID.ml -newer modelrun 2>/dev/null | head -1)" ]; then
   exit 0
 fi
 rm -f *.ml *.mli *.cm* *.o modelrun
 cp $V/coq/extract/$ID.v Extract$ID.v
 timeout 600 coqc -Q $V/coq/theories Rpgp Extract$ID.v > extract.log 2>&1 || { cat extract.log; exit 1; }
 cp $V/model/common.ml common.ml
+grep -q "Prims\." $V/model/$ID.ml && cp $V/model/prims.ml prims.ml
 cp $V/model/$ID.ml driver_$ID.ml
 FILES=$(ocamlfind ocamldep -sort *.mli *.ml)
 timeout 600 ocamlfind ocamlopt -O2 -w -a -package unix -linkpkg $FILES -o modelrun 2> ocaml.log || \
